@@ -62,6 +62,7 @@ def step (s : S) (ws : List String) : S × String :=
       else r) s.r
     after s r
   | ["initdone"] => after s s.r
+  | ["putraw", _, _] => if s.oracleOnly then after s s.r else (s, "bad-op")
   | ["touch", id] =>
     match id.toNat? with
     | some id => after s (s.r.touch id)
